@@ -17,6 +17,13 @@
   There is no receive queue: nothing but `next_sequence_number` survives a request.
   `is_ipmc_accessible` (one exchange without the retry loop, `i2cProbe`) is a request too.
 
+  These transports do not bridge: they write the request straight to `target.ipmb_address` on the local
+  bus.  `I2cCfg.refuseRouted = true` is the repaired source (fixes/C09-2.diff): a target whose routing has
+  more than one hop is REFUSED — NotSupportedError as the very first statement of `_send_and_receive` /
+  `is_ipmc_accessible`, before the sequence number is advanced and before anything is written;
+  `refuseRouted = false` is the source as shipped, which ignored `Target.routing` and put the un-bridged
+  request on the local bus (property C09).
+
   `Shape.*` at the end of this file are the four Python functions, statement by statement, each
   annotated with the definition here that mirrors it; the translator regenerates the same values
   from the working tree and `Props.C04.source_shape_ipmbdev` / `source_shape_aardvark` demand equality.
@@ -45,6 +52,9 @@ structure I2cCfg where
   /-- ipmb-dev: `assert rx_data[0] == len(rx_data) - 1` -/
   lenByte : Bool
   slaveAddr : Nat := 0x20
+  /-- repaired source (fixes/C09-2.diff): `if target.routing and len(target.routing) > 1: raise
+  NotSupportedError` in front of everything else; `false` = as shipped (`Target.routing` ignored) -/
+  refuseRouted : Bool := true
   deriving Repr, DecidableEq
 
 def I2cCfg.ipmbdev : I2cCfg :=
@@ -117,12 +127,25 @@ structure I2cStep where
 each and `Props.C04.gen_seq_rules_agree` checks they coincide). -/
 def i2cIncSeq (s : Nat) : Nat := (s + Gen.Loops04.ipmbdevSeqInc) % Gen.Loops04.ipmbdevSeqMod
 
-/-- One `_send_and_receive` on ipmb-dev / Aardvark (routing is ignored by these transports). -/
+/-- `if target.routing and len(target.routing) > 1: raise NotSupportedError(…)` — the guard of the
+repaired source: these transports cannot bridge, so a target that is reachable only through a bridge is
+refused (`Target.routing` is `None` / a list: `[]` stands for both) -/
+def i2cRefuses (cfg : I2cCfg) (routing : List Hop) : Bool := cfg.refuseRouted && decide (1 < routing.length)
+
+/-- what a refused request leaves behind: NotSupportedError, the sequence number NOT advanced, nothing
+written, nothing read -/
+def i2cRefused (nextSeq : Nat) (evs : List I2cEvent) : I2cStep :=
+  { nextSeq := nextSeq, out := .notSupported, tx := [], rest := evs }
+
+/-- One `_send_and_receive` on ipmb-dev / Aardvark.  The request goes straight to `target.ipmb_address`
+(`req.rsSa`) from `slave_address`; of `Target.routing` only its length is looked at (the guard). -/
 def i2cRequest (cfg : I2cCfg) (nextSeq : Nat) (req : Req) (evs : List I2cEvent) : I2cStep :=
-  let seq := i2cIncSeq nextSeq
-  let h := mkHdr cfg.slaveAddr req seq
-  let r := i2cAttempts cfg h cfg.attempts evs 0
-  { nextSeq := seq, out := r.out, tx := List.replicate r.sends (encodeIpmbMsg h req.payload), rest := r.rest }
+  if i2cRefuses cfg req.routing then i2cRefused nextSeq evs
+  else
+    let seq := i2cIncSeq nextSeq
+    let h := mkHdr cfg.slaveAddr req seq
+    let r := i2cAttempts cfg h cfg.attempts evs 0
+    { nextSeq := seq, out := r.out, tx := List.replicate r.sends (encodeIpmbMsg h req.payload), rest := r.rest }
 
 /-- The request `is_ipmc_accessible(target)` puts on the bus: Get Device ID (netFn App, command 01h)
 to LUN 0 of the target, no data. -/
@@ -132,16 +155,20 @@ def probeReq (rsSa : Nat) : Req := { rsSa := rsSa, netfn := 6, lun := 0, cmd := 
 (send once, `_receive_raw` once; an IpmiTimeoutError / IOError goes to the caller, who polls).
 `inc = true` is the repaired source (fixes/C04-4.diff): the probe advances the sequence number like
 every other request; `inc = false` is the source as shipped: it goes out with the number of the
-request before it.  `out = .ok []` stands for `return True`. -/
-def i2cProbe (cfg : I2cCfg) (inc : Bool) (nextSeq : Nat) (rsSa : Nat) (evs : List I2cEvent) : I2cStep :=
-  let seq := if inc then i2cIncSeq nextSeq else nextSeq
-  let h := mkHdr cfg.slaveAddr (probeReq rsSa) seq
-  let tx := [encodeIpmbMsg h []]
-  match recvRaw cfg h 0 evs with
-  | .got _ rest => { nextSeq := seq, out := .ok [], tx := tx, rest := rest }
-  | .timeout rest => { nextSeq := seq, out := .timeoutError, tx := tx, rest := rest }
-  | .ioError rest => { nextSeq := seq, out := .pyError "OSError", tx := tx, rest := rest }
-  | .abort e rest => { nextSeq := seq, out := e, tx := tx, rest := rest }
+request before it.  `out = .ok []` stands for `return True`.  `routing` = `target.routing`: the same
+guard as in `_send_and_receive` comes first (`i2cRefuses`). -/
+def i2cProbe (cfg : I2cCfg) (inc : Bool) (nextSeq : Nat) (rsSa : Nat) (evs : List I2cEvent)
+    (routing : List Hop := []) : I2cStep :=
+  if i2cRefuses cfg routing then i2cRefused nextSeq evs
+  else
+    let seq := if inc then i2cIncSeq nextSeq else nextSeq
+    let h := mkHdr cfg.slaveAddr (probeReq rsSa) seq
+    let tx := [encodeIpmbMsg h []]
+    match recvRaw cfg h 0 evs with
+    | .got _ rest => { nextSeq := seq, out := .ok [], tx := tx, rest := rest }
+    | .timeout rest => { nextSeq := seq, out := .timeoutError, tx := tx, rest := rest }
+    | .ioError rest => { nextSeq := seq, out := .pyError "OSError", tx := tx, rest := rest }
+    | .abort e rest => { nextSeq := seq, out := e, tx := tx, rest := rest }
 
 def i2cFramesOf : List I2cEvent → List Frame
   | [] => []
@@ -159,11 +186,21 @@ mirrors it. -/
 namespace Shape
 open PyIpmi.LoopAst
 
+/-- `if target.routing and len(target.routing) > 1: raise NotSupportedError(…)` (`target` is parameter 0 of
+all four functions that carry it): `i2cRefuses` -/
+def routedGuard : S :=
+  .ite (.and_ (.attr (.var 0) .routing) (.cmp .gt (.call (.glob .len) args[.attr (.var 0) .routing]) (.num 1))) py[
+    .raise (.glob .NotSupportedError)] py[]
+
 /-- `_send_and_receive` of ipmb-dev and Aardvark up to the `return` statement `last`.
 variables: 0=target, 1=lun, 2=netfn, 3=cmdid, 4=payload (parameters), 5=header, 6=retries, 7=rx_data -/
 def i2cSendAndReceive (last : S) : Fun :=
   { params := 5, body := py[
-    -- `i2cRequest`: `seq := i2cIncSeq nextSeq` comes FIRST and on every path (`nextSeq := seq` whatever the outcome)
+    -- `i2cRefuses cfg req.routing` → `i2cRefused`: the guard comes FIRST — a target behind a bridge is refused
+    -- before the sequence number is advanced and before anything is written (`refuseRouted = true`; the
+    -- pinned source had no such statement: `Target.routing` was ignored, property C09)
+    routedGuard,
+    -- `i2cRequest`: `seq := i2cIncSeq nextSeq` comes next and on every other path (`nextSeq := seq` whatever the outcome)
     .expr (.call (.attr .self_ .u_inc_sequence_number) args[]),
     -- `mkHdr cfg.slaveAddr req seq`; rq_seq is the number just advanced
     .assign (.var 5) (.call (.glob .IpmbHeaderReq) args[]),
@@ -269,6 +306,10 @@ def aardvarkReceiveRaw : Fun :=
 variables: 0=target (parameter), 1=header -/
 def isIpmcAccessible : Fun :=
   { params := 1, body := py[
+    -- `i2cRefuses cfg routing` → `i2cRefused`: the guard comes FIRST — a target behind a bridge is refused
+    -- before the sequence number is advanced and before anything is written (`refuseRouted = true`; the
+    -- pinned source had no such statement: `Target.routing` was ignored, property C09)
+    routedGuard,
     -- `i2cProbe … inc = true`: the probe is a request like any other — it takes the NEXT sequence number
     -- (the pinned source lacked this statement: `inc = false`, the probe repeated the previous number)
     .expr (.call (.attr .self_ .u_inc_sequence_number) args[]),
